@@ -2,6 +2,7 @@ package core
 
 import (
 	"context"
+	"sync"
 	"fmt"
 	"strings"
 	"testing"
@@ -111,7 +112,8 @@ func TestVerifC14Requests(t *testing.T) {
 	rec := stats.Open(t, "C14")
 	rapid.Check(t, func(rt *rapid.T) {
 		seed := rapid.Uint64Range(1, 1<<32).Draw(rt, "keyseed")
-		specs := []vChainSpec{{ID: "default", Scheme: rapid.SampledFrom(fx.SchemeNames).Draw(rt, "scheme"), Grouped: true}, {ID: "a", Scheme: fx.SchemeNames[1], Grouped: true}, {ID: "u", Scheme: fx.SchemeNames[0], Grouped: false}}
+		specs := []vChainSpec{{ID: "default", Scheme: rapid.SampledFrom(fx.SchemeNames).Draw(rt, "scheme"), Grouped: true}, {ID: "a", Scheme: fx.SchemeNames[1], Grouped: true}, {ID: "u", Scheme: fx.SchemeNames[0], Grouped: false},
+			{ID: "c", Scheme: fx.SchemeNames[2], Grouped: true}}
 		v, err := newVDaemon(t, seed, specs, chain.BoltDB, false)
 		if err != nil {
 			rt.Fatalf("daemon: %v", err)
@@ -120,6 +122,14 @@ func TestVerifC14Requests(t *testing.T) {
 		for i := 0; i < 2; i++ {
 			v.tick("default", "a")
 		}
+		// chain "c" is the STOPPED state: loaded (group, chain hash) but its beacon handler is stopped
+		v.dd.state.RLock()
+		bpC := v.dd.beaconProcesses["c"]
+		v.dd.state.RUnlock()
+		if bpC == nil {
+			rt.Fatalf("harness: chain c not loaded")
+		}
+		bpC.StopBeacon(context.Background())
 		conn, err := grpc.NewClient(v.addr, grpc.WithTransportCredentials(insecure.NewCredentials()))
 		if err != nil {
 			rt.Fatalf("dial: %v", err)
@@ -127,7 +137,7 @@ func TestVerifC14Requests(t *testing.T) {
 		defer conn.Close()
 		cl := &clients{proto: drand.NewProtocolClient(conn), pub: drand.NewPublicClient(conn), dkg: pdkg.NewDKGPublicClient(conn)}
 		def := v.chains["default"]
-		fc := &protofill.Ctx{IDs: []string{"default", "a", "u"}, Hashes: [][]byte{def.Hash, v.chains["a"].Hash}, Head: v.head("default")}
+		fc := &protofill.Ctx{IDs: []string{"default", "a", "u", "c", "c"}, Hashes: [][]byte{def.Hash, v.chains["a"].Hash, v.chains["c"].Hash}, Head: v.head("default")}
 		// a valid partial of the only member (the node itself) and its key: lets requests get past early validation
 		fc.Valid = append(fc.Valid, def.Net.Partial(0, fc.Head+1, nil))
 		kb, _ := def.Net.Pairs[0].Public.Key.MarshalBinary()
@@ -183,6 +193,39 @@ func TestVerifC14Requests(t *testing.T) {
 				path := rapid.SampledFrom([]string{"/", "/info", "/public/latest", "/public/0", "/public/1", "/public/18446744073709551615", "/public/-1", "/public/abc", "/public/99999999999999999999",
 					"/" + def.HashHex + "/public/" + fmt.Sprint(fc.Head+1), "/" + def.HashHex + "/public/" + fmt.Sprint(fc.Head+5), "/" + strings.Repeat("f", 64) + "/info", "/%00/info", "/chains", "/health", "/" + def.HashHex + "/health",
 					"/" + strings.Repeat("a", 5000) + "/info"}).Draw(rt, "path")
+				if rapid.IntRange(0, 3).Draw(rt, "cancelledWaiters") == 0 {
+					// many requests wait for the next round, most of them give up (client timeout) right around the moment the
+					// round is delivered; three rounds in a row
+					_, _ = v.httpGet("/"+def.HashHex+"/public/latest", 2*time.Second) // starts the handler's watcher
+					v.tick("default")
+					time.Sleep(20 * time.Millisecond) // the watcher has seen a round: requests for the next one wait for it
+					spread := rapid.IntRange(2, 12).Draw(rt, "timeoutSpreadMs")
+					for round := 0; round < 3; round++ {
+						var wg sync.WaitGroup
+						next := fmt.Sprintf("/%s/public/%d", def.HashHex, v.head("default")+1)
+						for k := 0; k < 400; k++ {
+							to := time.Duration(200+(k*spread*1000)/400) * time.Microsecond
+							if k%8 == 0 {
+								to = 2 * time.Second
+							}
+							wg.Add(1)
+							go func() { defer wg.Done(); v.httpGet(next, to) }()
+						}
+						time.Sleep(time.Duration(rapid.IntRange(0, spread).Draw(rt, "tickAfterMs")) * time.Millisecond)
+						v.tick("default")
+						wdone := make(chan struct{})
+						go func() { wg.Wait(); close(wdone) }()
+						select {
+						case <-wdone:
+						case <-time.After(10 * time.Second):
+							fail("C14/request-not-answered", "HTTP requests waiting for the next round were not answered within 10 s")
+							return
+						}
+					}
+					hist = append(hist, "3 rounds of 400x GET /<hash>/public/<next> (350 of them cancelled around the delivery)")
+					fc.Head = v.head("default")
+					continue
+				}
 				hist = append(hist, "GET "+trunc(path, 60))
 				done := make(chan int, 1)
 				go func() { c, _ := v.httpGet(path, v.period+3*time.Second); done <- c }()
@@ -235,6 +278,56 @@ func TestVerifC14Requests(t *testing.T) {
 		}
 		if !probe("the request sequence") {
 			return
+		}
+		// the stopped chain answers (with an error or a value) and can be started again: a read lock left behind by a request would
+		// block the start for ever
+		{
+			// one plain request per endpoint addressed to the stopped chain (the generated ones reach it only now and then)
+			mdC := func() *drand.Metadata { return &drand.Metadata{BeaconID: "c"} }
+			for name, call := range map[string]func(ctx context.Context) error{
+				"ChainInfo":  func(ctx context.Context) error { _, err := cl.pub.ChainInfo(ctx, &drand.ChainInfoRequest{Metadata: mdC()}); return err },
+				"PublicRand": func(ctx context.Context) error { _, err := cl.pub.PublicRand(ctx, &drand.PublicRandRequest{Round: 1, Metadata: mdC()}); return err },
+				"PublicRandStream": func(ctx context.Context) error {
+					st, err := cl.pub.PublicRandStream(ctx, &drand.PublicRandRequest{Metadata: mdC()})
+					if err != nil {
+						return err
+					}
+					return drainStream(st.Recv)
+				},
+				"SyncChain": func(ctx context.Context) error {
+					st, err := cl.proto.SyncChain(ctx, &drand.SyncRequest{FromRound: 1, Metadata: mdC()})
+					if err != nil {
+						return err
+					}
+					return drainStream(st.Recv)
+				},
+				"PartialBeacon": func(ctx context.Context) error {
+					_, err := cl.proto.PartialBeacon(ctx, &drand.PartialBeaconPacket{Round: 1, PartialSig: []byte{0, 1, 2, 3}, Metadata: mdC()})
+					return err
+				},
+				"Status":      func(ctx context.Context) error { _, err := cl.proto.Status(ctx, &drand.StatusRequest{Metadata: mdC()}); return err },
+				"GetIdentity": func(ctx context.Context) error { _, err := cl.proto.GetIdentity(ctx, &drand.IdentityRequest{Metadata: mdC()}); return err },
+			} {
+				ctx, cancel := context.WithTimeout(context.Background(), 500*time.Millisecond)
+				done := make(chan struct{})
+				go func() { _ = call(ctx); close(done) }()
+				select {
+				case <-done:
+				case <-time.After(5 * time.Second):
+					cancel()
+					fail("C14/request-not-answered", name+" addressed to the stopped chain was not answered within 5 s")
+					return
+				}
+				cancel()
+			}
+			started := make(chan error, 1)
+			go func() { started <- bpC.StartBeacon(context.Background(), true) }()
+			select {
+			case <-started:
+			case <-time.After(6 * time.Second):
+				fail("C14/stopped-chain-cannot-restart", "after the requests StartBeacon of the stopped chain did not return within 6 s (lock held?)")
+				return
+			}
 		}
 		// the service loops are alive: a tick still produces the next beacon
 		h0 := v.head("default")
